@@ -10,6 +10,8 @@ def main(argv):
     vlib.build_harness()
     parts_multi.run(rep, PID, rep.tier == 'thorough')
     parts_multi.run_ho(rep, PID, rep.tier == 'thorough')
+    # group-by: one source, higher-order output - nothing lost, one group per key, also when the observer leaves a group or the outer stream on a group's birth
+    parts_multi.run_single(rep, PID, rep.tier == 'thorough')
     # concurrent clause: some arrival order compatible with each source's own order must explain the output (MultiLin.tla)
     th = rep.tier == 'thorough'
     tracecheck.run(rep, PID, 'drive-multilin', 'MultiLin', 'MultiLin_x.cfg', 1500 if th else 400, [rep.seed * 100 + i for i in range(5 if th else 1)], 'multilin', comp_key='Op', dfs=True)
